@@ -80,3 +80,80 @@ example : ∃ s, run lts init
   decide
 
 end GoSup.Props.C12L
+
+namespace GoSup.Props.C12L
+open GoSup.Core GoSup.HttpLts
+open GoSup.CompSeq (Fsm)
+
+/-- the steps the library itself can take (with some answer of the environment where one is needed: a callback that
+returns, a drain that ends, a probe that gives up) -/
+def progressActs : List Act :=
+  [.runEnter, .runBootBegin (.ok 0) true, .runProbeFail false, .runToRunning, .runSelStop, .runToStopping,
+   .runStopServer true, .runFinish, .rlConfig (.ok 0) true, .rlStopOld true, .rlBootBegin true, .rlProbeFail false]
+
+/-- **`Stop()` is never stuck** (C13, C14: "Run()/Stop() still terminate") — in every interleaving: in every reachable
+state in which a `Stop()` caller is waiting and `Run()` has not returned, the library can take a step: `Run` can move on,
+or, if it waits for `r.mutex`, the reload that holds it can (each of its steps is enabled, and a reload has at most five).
+There is no reachable deadlock. -/
+theorem c13_stop_never_stuck {s : St} (h : Reach lts init s) (hstop : s.stopReq = true) (hnot : ∀ r, s.run ≠ .returned r) :
+    ∃ a ∈ progressActs, (step s a).isSome = true := by
+  have hi := inv_reach h
+  cases hr : s.run with
+  | idle =>
+    have hm : s.mu = none := by
+      cases hm : s.mu with
+      | none => rfl
+      | some o =>
+        cases o with
+        | run => have := hi.muFree hm; rw [hr] at this; cases this
+        | reload => exact absurd (hi.early (by simp [early, hr])).1 (hi.muFree' hm)
+    refine ⟨.runEnter, by simp [progressActs], ?_⟩
+    simp only [step, hr, hm]
+    cases tr s .booting <;> simp
+  | entered =>
+    have hm : s.mu = none := by
+      cases hm : s.mu with
+      | none => rfl
+      | some o =>
+        cases o with
+        | run => have := hi.muFree hm; rw [hr] at this; cases this
+        | reload => exact absurd (hi.early (by simp [early, hr])).1 (hi.muFree' hm)
+    refine ⟨.runBootBegin (.ok 0) true, by simp [progressActs], ?_⟩
+    simp only [step, hr, hm]
+    cases s.cfg <;> simp
+  | probing => exact ⟨.runProbeFail false, by simp [progressActs], by simp [step, hr]⟩
+  | booted =>
+    refine ⟨.runToRunning, by simp [progressActs], ?_⟩
+    simp only [step, hr]
+    cases tr s .running <;> simp
+  | select => exact ⟨.runSelStop, by simp [progressActs], by simp [step, hr, hstop]⟩
+  | afterSelect => exact ⟨.runToStopping, by simp [progressActs], by simp [step, hr]⟩
+  | toStop =>
+    cases hm : s.mu with
+    | none => exact ⟨.runStopServer true, by simp [progressActs], by simp [step, hr, hm]⟩
+    | some o =>
+      cases o with
+      | run => have := hi.muFree hm; rw [hr] at this; cases this
+      | reload =>
+        have hrl := hi.muFree' hm
+        cases hl : s.rl with
+        | idle => exact absurd hl hrl
+        | entered =>
+          refine ⟨.rlConfig (.ok 0) true, by simp [progressActs], ?_⟩
+          simp only [step, hl]
+          cases s.cfg.isSome <;> simp
+        | stopOld =>
+          refine ⟨.rlStopOld true, by simp [progressActs], ?_⟩
+          simp only [step, hl]
+          cases stopErr s true <;> simp
+        | toBoot => exact ⟨.rlBootBegin true, by simp [progressActs], by simp [step, hl]⟩
+        | probing => exact ⟨.rlProbeFail false, by simp [progressActs], by simp [step, hl]⟩
+  | stopped b =>
+    refine ⟨.runFinish, by simp [progressActs], ?_⟩
+    simp only [step, hr]
+    cases b
+    · cases tr s .stopped <;> simp
+    · simp
+  | returned r => exact absurd hr (hnot r)
+
+end GoSup.Props.C12L
